@@ -226,6 +226,13 @@ def run_case(case, ctx):
         if ast_body is not None:
             from smartquery.ast_ops import LambdaOp, NameOp
             ast_names = {'af': LambdaOp(args=[NameOp('v')], expr=P.parse(ast_body))}
+        if hash(src) % 5 == 0:
+            # an earlier call on the same parser bound exactly the names this program leaves undefined - by assignment and through its own names mapping -
+            # and then failed at run time / ran out of budget / succeeded; none of that may leak into this call
+            poison = {'nope': 1, 'nope_1': 1, 'nope2': 2, '%no such%': 3, 'nofn': (lambda *a: 0), 'u': 5, '%u v%': 6, 'nopec': [1, 2], 'e': [9], 'l': list(range(200)), 'd': {'missing': 1, 'new': 1}}
+            for psrc, budget in (('nope = 1\nnofn = v => v\nu = 1\nnopec = [1]\nrows = [1, 2]\nrows[7]', 1000), ('u = 2\nnope = 2\nf = n => f(n + 1)\nf(0)', 60), ('nope = 3\nu = 3\n[nope, u]', 1000)):
+                call(P.eval, psrc, dict(poison), None, budget)
+            ctx.count('evals_preceded_by_poisoning_calls')
         e = call(P.eval, src, names(ctx), ast_names, 10 ** 6)
         judge(ctx, case, 'eval', src, e, PE, cat)
         ctx.cov('categories', cat)
